@@ -11,6 +11,7 @@ value differs from S1.
 """
 from __future__ import annotations
 
+import enum
 import os
 import uuid
 
@@ -34,8 +35,12 @@ def canon(v, depth=0):
         return "uuid:" + str(v)
     if isinstance(v, bytes):
         return "bytes:" + v.hex()[:200]
+    if isinstance(v, enum.Enum):
+        return "enum:" + v.name
     if isinstance(v, np.ndarray):
         if v.dtype.names:
+            if v.ndim == 0:
+                return [canon(x, depth + 1) for x in v.tolist()]
             return {"rec": [canon(v[n], depth + 1) for n in v.dtype.names]}
         if v.dtype.kind in "OUS":
             return [canon(x, depth + 1) for x in v.ravel().tolist()]
@@ -46,8 +51,6 @@ def canon(v, depth=0):
         return {"dict": sorted(([str(canon(k, depth + 1)), canon(x, depth + 1)] for k, x in v.items()), key=lambda p: p[0])}
     if isinstance(v, (list, tuple)):
         return [canon(x, depth + 1) for x in v]
-    if hasattr(v, "name") and hasattr(v, "value") and type(v).__module__.startswith("geoh5py") and type(type(v)).__name__ == "EnumMeta":
-        return "enum:" + v.name
     cn = type(v).__name__
     if cn == "ColorMap":
         return {"colormap": [v.name, canon(v.values, depth + 1)]}
@@ -87,6 +90,9 @@ V4 = [[0, 0, 0], [1, 0, 0], [2, 1, 0], [3, 1, 1]]
 
 def _cls(name):
     import importlib
+
+    if name.startswith("Concatenator") and name != "Concatenator":
+        name = name[len("Concatenator"):]  # run-time wrapper classes are created through the wrapped class
     import pkgutil
 
     import geoh5py
@@ -130,7 +136,7 @@ DATA_RECIPES = {
     "IntegerData": lambda np: {"values": np.array([1, 2, 3, 4], dtype="int32")},
     "BooleanData": lambda np: {"type": "boolean", "values": np.array([True, False, True, False])},
     "ReferencedData": lambda np: {"type": "referenced", "values": np.array([1, 2, 1, 2], dtype="uint32"), "value_map": {1: "a", 2: "b"}},
-    "TextData": lambda np: {"type": "text", "values": "some text"},
+    "TextData": lambda np: {"type": "text", "values": np.array(["some text"])[0]},
     "DatetimeData": lambda np: {"type": "datetime", "values": "2020-01-01T00:00:00"},
     "MultiTextData": lambda np: {"type": "multi_text", "values": np.array(["a", "b", "c", "d"])},
     "BlobData": lambda np: {"type": "blob", "values": None},
@@ -144,7 +150,7 @@ def create(ws, case):
     from geoh5py.objects import Points
 
     name, rec = case["cls"], case["recipe"]
-    if rec in ("object", "group"):
+    if rec in ("object", "group", "concatenator"):
         cls = _cls(name)
         if name == "RootGroup":
             return {"how": "root"}
@@ -159,6 +165,13 @@ def create(ws, case):
         if name in ("CustomGroup", "MapsGroup"):
             kw["entity_type_uid"] = uuid.UUID(int=0xC03C03 + len(name))
         e = cls.create(ws, name="ent", **kw)
+        if name in ("CurrentElectrode", "PotentialElectrode"):
+            # an electrode set is only meaningful with its partner (the metadata setter insists on both identifiers)
+            other = _cls("PotentialElectrode" if name == "CurrentElectrode" else "CurrentElectrode").create(ws, name="partner", **kw)
+            if name == "CurrentElectrode":
+                e.potential_electrodes = other
+            else:
+                e.current_electrodes = other
         return {"how": "uid", "uid": str(e.uid)}
     pts = Points.create(ws, name="parent", vertices=np.array(V4, dtype=float))
     if rec == "data":
@@ -233,6 +246,32 @@ def find(ws, loc):
 
 
 # ----------------------------------------------------------------------------- values
+def _dvalues(ent, s):
+    import numpy as np
+
+    n = ent.parent.n_vertices
+    cn = type(ent).__name__
+    if cn == "FloatData":
+        return np.array([float((s + 3 * i) % 11) for i in range(n)])
+    if cn == "IntegerData":
+        return np.array([(s + 3 * i) % 11 for i in range(n)], dtype="int32")
+    if cn == "BooleanData":
+        return np.array([bool((s + i) % 2) for i in range(n)])
+    if cn == "ReferencedData":
+        return np.array([1 + (s + i) % 2 for i in range(n)], dtype="uint32")
+    if cn in ("TextData", "DatetimeData"):
+        return f"text {s}"
+    if cn == "MultiTextData":
+        return np.array([f"t{(s + i) % 5}" for i in range(n)])
+    if cn == "CommentsData":
+        return [{"Author": "a", "Date": "2020-01-01", "Text": f"c{s}"}]
+    if cn == "VisualParameters":
+        return f'<IParameterList Version="1.0"><Colour>{s}</Colour></IParameterList>'
+    if cn == "FilenameData":
+        return f"payload {s}".encode()
+    raise NotImplementedError(cn)
+
+
 def make_value(spec, ent, ws, loc, attr):
     import numpy as np
 
@@ -245,10 +284,14 @@ def make_value(spec, ent, ws, loc, attr):
     if k in ("str", "float", "int", "list", "dict"):
         return spec["v"]
     if k == "pick":
-        ch = [c for c in spec["choices"] if canon(c) != canon(cur)]
+        cc = canon(cur)
+        ch = [c for c in spec["choices"] if canon(c) != cc and "enum:" + str(c) != cc]
         return ch[spec["i"] % len(ch)]
     if k == "pick_attr":  # choices listed by another attribute of the entity (default_units, default_input_types)
-        ch = [c for c in (getattr(ent, spec["src"]) or []) if c != getattr(ent, attr)]
+        try:
+            ch = [c for c in (getattr(ent, spec["src"]) or []) if c != getattr(ent, attr)]
+        except AttributeError as e:
+            raise LookupError(f"broken:{spec['src']} raises AttributeError: {e}") from e
         if not ch:
             raise LookupError("no alternative value")
         return ch[spec["i"] % len(ch)]
@@ -261,40 +304,26 @@ def make_value(spec, ent, ws, loc, attr):
         s = spec["seed"]
         return np.array([[(s + 3 * i) % 7, (s * 2 + i) % 5, (s + i * i) % 3] for i in range(n)], dtype=float)
     if k == "cells":
-        m = (0 if ent.cells is None else ent.cells.shape[0]) + spec["extra"]
         nv = ent.n_vertices
+        if not nv:
+            raise LookupError("no vertices")
+        m = (0 if ent.cells is None else ent.cells.shape[0]) + spec["extra"]
         ar = spec["arity"]
         s = spec["seed"]
         return np.array([[(s + i + j * (1 + s % 2)) % nv for j in range(ar)] for i in range(m)], dtype=spec.get("dtype", "int32"))
     if k == "parts":
         nv = ent.n_vertices
-        cut = 1 + spec["seed"] % (nv - 1)
+        if nv < 4:
+            raise LookupError("too few vertices for two parts")
+        cut = 2 + spec["seed"] % (nv - 3)  # both parts keep at least two vertices (a one-vertex part has no segment)
         return np.array([0 if i < cut else 1 for i in range(nv)], dtype="int32")
     if k == "uuid":
         return uuid.UUID(int=spec["v"])
     if k == "dvalues":
-        n = ent.parent.n_vertices
-        s = spec["seed"]
-        cn = type(ent).__name__
-        if cn == "FloatData":
-            return np.array([float((s + 3 * i) % 11) for i in range(n)])
-        if cn == "IntegerData":
-            return np.array([(s + 3 * i) % 11 for i in range(n)], dtype="int32")
-        if cn == "BooleanData":
-            return np.array([bool((s + i) % 2) for i in range(n)])
-        if cn == "ReferencedData":
-            return np.array([1 + (s + i) % 2 for i in range(n)], dtype="uint32")
-        if cn in ("TextData", "DatetimeData"):
-            return f"text {s}"
-        if cn == "MultiTextData":
-            return np.array([f"t{(s + i) % 5}" for i in range(n)])
-        if cn == "CommentsData":
-            return [{"Author": "a", "Date": "2020-01-01", "Text": f"c{s}"}]
-        if cn == "VisualParameters":
-            return f'<IParameterList Version="1.0"><Colour>{s}</Colour></IParameterList>'
-        if cn == "FilenameData":
-            return f"payload {s}".encode()
-        raise NotImplementedError(cn)
+        v = _dvalues(ent, spec["seed"])
+        if canon(v) == canon(ent.values):
+            v = _dvalues(ent, spec["seed"] + 1)
+        return v
     if k == "colormap":
         s = spec["seed"]
         return np.c_[np.arange(4.0) + s, np.full((4, 4), s % 200)]
@@ -332,6 +361,9 @@ def make_value(spec, ent, ws, loc, attr):
         return tcls.create(ws, vertices=np.array(V4, dtype=float))
     if k == "tipper_base":
         from geoh5py.objects import TipperBaseStations
+
+        if isinstance(ent, TipperBaseStations):
+            raise LookupError("base stations cannot have base stations (by design)")
 
         return TipperBaseStations.create(ws, vertices=np.array(V4, dtype=float))
     if k == "waveform":
@@ -374,7 +406,7 @@ def raw_scalars(path, cls_kind, loc, amap):
             elif loc["how"] == "root":
                 node = base["Root"]
             elif loc["how"] == "uid":
-                node = base[{"object": "Objects", "group": "Groups", "data": "Data"}[cls_kind]]["{" + loc["uid"] + "}"]
+                node = base[{"object": "Objects", "group": "Groups", "concatenator": "Groups", "data": "Data"}[cls_kind]]["{" + loc["uid"] + "}"]
             elif loc["how"] == "type_of":
                 ent = None
                 for sec in ("Objects", "Groups", "Data"):
@@ -385,6 +417,18 @@ def raw_scalars(path, cls_kind, loc, amap):
                 node = base["Objects"]["{" + loc["uid"] + "}"]["PropertyGroups"]["{" + loc["pg"] + "}"]
             else:
                 return out
+            import json as _json
+
+            for dname, attr in (("Metadata", "metadata"), ("options", "options")):
+                if dname in node and not isinstance(node[dname], h5py.Group):
+                    try:
+                        txt = np.r_[node[dname]][0]
+                        txt = txt.decode() if isinstance(txt, bytes) else txt
+                        out[attr] = {"json": _json.loads(txt)}
+                    except Exception:  # noqa: BLE001
+                        out[attr] = {"json": "<unreadable>"}
+                else:
+                    out[attr] = {"json": None}
             for key, attr in amap.items():
                 if key in node.attrs:
                     v = node.attrs[key]
@@ -398,8 +442,25 @@ def raw_scalars(path, cls_kind, loc, amap):
     return out
 
 
+def _plain(c):
+    """canonical value -> plain JSON-like value (dict canon form undone, uuid as braced string)"""
+    if isinstance(c, dict) and "dict" in c:
+        return {k: _plain(v) for k, v in c["dict"]}
+    if isinstance(c, dict) and "f" in c:
+        return float.fromhex(c["f"])
+    if isinstance(c, list):
+        return [_plain(x) for x in c]
+    if isinstance(c, str) and c.startswith("uuid:"):
+        return "{" + c[5:] + "}"
+    return c
+
+
 def raw_matches(live, raw):
     """compare a canonical getter value with the canonical raw HDF5 value; None = not comparable"""
+    if isinstance(raw, dict) and "json" in raw:
+        if live is None or (isinstance(live, dict) and "dict" in live):
+            return _plain(live) == raw["json"]
+        return None
     if isinstance(live, bool) and isinstance(raw, int):
         return int(live) == raw
     if isinstance(live, (int, str)) and not isinstance(live, bool) and isinstance(raw, (int, str)):
@@ -414,6 +475,8 @@ def raw_matches(live, raw):
         r = raw["rec"] if isinstance(raw, dict) and "rec" in raw else raw
         return [x for x in live["rec"]] == [x for x in r]
     if isinstance(live, list) and isinstance(raw, list):
+        if all(isinstance(x, str) and x.startswith("uuid:") for x in live):
+            return [x[5:] for x in live] == [str(x).strip("{}") for x in raw]
         return live == raw
     return None
 
@@ -430,7 +493,7 @@ def drive(case, work):
     if os.path.exists(path):
         os.remove(path)
     snap = case["snap"]
-    obs = {"steps": [], "lost": [], "raw_bad": []}
+    obs = {"steps": [], "lost": [], "unread": [], "raw_bad": []}
     try:
         with Workspace.create(path) as ws:
             loc = create(ws, case)
@@ -469,12 +532,16 @@ def drive(case, work):
     for st in obs["steps"]:
         a = st["attr"]
         st["changed"] = s0.get(a) != s1.get(a)
-    obs["lost"] = [a for a in snap if s1[a] != s2[a]]
+    differ = [a for a in snap if s1[a] != s2[a]]
     obs["detail"] = {a: {"before": s0[a], "live": s1[a], "reread": s2[a]} for a in snap if s1[a] != s2[a] or a in [s["attr"] for s in case["steps"]]}
+    # an attribute that a fresh reader does not return although the raw file holds the live value was *stored*:
+    # the loss is on the reading side (reported under its own key), not a write-through loss
+    obs["unread"] = [a for a in differ if a in raw and raw_matches(s1[a], raw[a]) is True]
+    obs["lost"] = [a for a in differ if a not in obs["unread"]]
     for a, rv in raw.items():
         if a in s1 and a != "__error__":
             m = raw_matches(s1[a], rv)
-            if m is False and a not in obs["lost"]:
+            if m is False and a not in differ:
                 obs["raw_bad"].append({"attr": a, "live": s1[a], "raw": rv})
     if "__error__" in raw:
         obs["raw_error"] = raw["__error__"]
